@@ -14,6 +14,14 @@ func Render(s *Scen) string {
 		eng = "On"
 	}
 	fmt.Fprintf(&sb, "SecRuleEngine %s\n", eng)
+	for i := range s.Dirs {
+		if s.Dirs[i].Def != "" {
+			for ph := 1; ph <= 2; ph++ {
+				fmt.Fprintf(&sb, "SecDefaultAction \"phase:%d,log,auditlog,%s,status:403\"\n", ph, s.Dirs[i].Def)
+			}
+			break
+		}
+	}
 	for i := range s.Rules {
 		renderRule(&sb, &s.Rules[i])
 	}
